@@ -250,3 +250,84 @@ func VerifHarness_C02_rewards() {
 	zzverif.Assert(uint64(data.PrevEpochUnslashedStake.TargetStake) == tgtStake, "previous-epoch unslashed target stake as the spec")
 	zzverif.Assert(uint64(data.PrevEpochUnslashedStake.SourceStake) == srcStake && uint64(data.PrevEpochUnslashedStake.HeadStake) == headStake, "previous-epoch unslashed source/head stake as the spec")
 }
+
+// VerifHarness_C02_slashings: ProcessEpochSlashings on the real phase0 state equals the spec's process_slashings: every
+// slashed validator whose withdrawable epoch is current_epoch + EPOCHS_PER_SLASHINGS_VECTOR/2 loses
+// effective_balance/increment * min(sum(slashings) * PROPORTIONAL_SLASHING_MULTIPLIER, total_balance) / total_balance
+// * increment (saturating at 0); every other balance is untouched.
+// Bounds: 3 validators with concrete distinct effective balances 8/24/32 ETH (the third active or exited, so the total
+// active balance is 64 or 32 ETH), symbolic slashed flags, withdrawable epochs on either side of the selected epoch,
+// slashings vector entries < 2^38, balances < 2^40.
+func VerifHarness_C02_slashings() {
+	spec := common.VTinySpec()
+	const n = 3
+	cur := common.Epoch(6)
+	raw := vRawState(spec, 0)
+	raw.Slot = common.Slot(uint64(cur)*uint64(spec.SLOTS_PER_EPOCH) + uint64(spec.SLOTS_PER_EPOCH) - 1)
+	raw.LatestBlockHeader.Slot = raw.Slot
+	raw.Fork = common.Fork{PreviousVersion: spec.GENESIS_FORK_VERSION, CurrentVersion: spec.GENESIS_FORK_VERSION, Epoch: 0}
+	effs := [n]common.Gwei{8000000000, 24000000000, 32000000000}
+	v2active := zzverif.Choose(2) == 0
+	var slashed [n]bool
+	var wd [n]common.Epoch
+	var bal [n]uint64
+	for i := 0; i < n; i++ {
+		v := &Validator{}
+		v.Pubkey[0] = byte(i + 1)
+		v.WithdrawalCredentials[0] = byte(i + 1)
+		v.EffectiveBalance = effs[i]
+		v.ExitEpoch = vFarFuture
+		if i == 2 && !v2active {
+			v.ExitEpoch = 4
+		}
+		slashed[i] = zzverif.NondetBool()
+		v.Slashed = slashed[i]
+		w := zzverif.NondetU8()
+		zzverif.Assume(w >= 6 && w <= 10)
+		wd[i] = common.Epoch(w)
+		v.WithdrawableEpoch = wd[i]
+		raw.Validators = append(raw.Validators, v)
+		b := zzverif.NondetU64()
+		zzverif.Assume(b < 1<<40)
+		bal[i] = b
+		raw.Balances = append(raw.Balances, common.Gwei(b))
+	}
+	sum := uint64(0)
+	for i := range raw.Slashings {
+		s := zzverif.NondetU64()
+		zzverif.Assume(s < 1<<38)
+		raw.Slashings[i] = common.Gwei(s)
+		sum += s
+	}
+	st, _ := vStateToView(spec, raw)
+	epc := vLightEpc(spec, raw, st)
+	vals, _ := st.Validators()
+	flats, _ := common.FlattenValidators(vals)
+	zzverif.Reach("slashings")
+	err := ProcessEpochSlashings(context.Background(), spec, epc, flats, st)
+	zzverif.Assert(err == nil, "ProcessEpochSlashings succeeds")
+	// ---- the spec ----
+	total := uint64(effs[0] + effs[1])
+	if v2active {
+		total += uint64(effs[2])
+	}
+	incr := uint64(spec.EFFECTIVE_BALANCE_INCREMENT)
+	adjusted := sum * uint64(spec.PROPORTIONAL_SLASHING_MULTIPLIER)
+	if adjusted > total {
+		adjusted = total
+	}
+	bals, _ := st.Balances()
+	for i := 0; i < n; i++ {
+		want := bal[i]
+		if slashed[i] && cur+spec.EPOCHS_PER_SLASHINGS_VECTOR/2 == wd[i] {
+			penalty := uint64(effs[i]) / incr * adjusted / total * incr
+			if want >= penalty {
+				want -= penalty
+			} else {
+				want = 0
+			}
+		}
+		got, _ := bals.GetBalance(common.ValidatorIndex(i))
+		zzverif.Assert(uint64(got) == want, "balances after process_slashings equal the spec's")
+	}
+}
